@@ -476,7 +476,7 @@ func c10Judge(c *mon.Ctx, in *c10In) {
 		c.Count("skipped:quote-out-of-domain")
 		return
 	}
-	tx := in.Tx.shape().Build()
+	tx := in.Tx.build(c)
 	fq := in.Quote.lib()
 	q := in.Quote.ref()
 	before := takeSnap(tx)
